@@ -307,14 +307,14 @@ def correspondence(ctx):
             ctx.pred_fail(it, c, b)
 
     # ---------------- ring walks
-    kmax = ctx.scale(12, 40)
+    kmax = ctx.scale(12, 80)
     for k in range(0, kmax + 1):
         lines.append(f'ring {k}')
         jobs.append(('ring', k))
 
     # ---------------- windows: exhaustive small sweep on the real _local_window, both axes at once
     wins = []
-    nmax = ctx.scale(9, 14) if not ctx.widen else 16
+    nmax = ctx.scale(9, 18) if not ctx.widen else 16
     for n in range(1, nmax + 1):
         for s in range(0, n + 2):
             for ic in range(-n - 2, n + 3):
@@ -328,7 +328,7 @@ def correspondence(ctx):
         jobs.append(('window', n, s, ic))
 
     # ---------------- hexagonal apertures
-    nhex = ctx.scale(60, 500)
+    nhex = ctx.scale(60, 1500)
     hexes = []
     for i in range(nhex):
         cfg = hex_config(rng, i, ctx.thorough)
@@ -453,7 +453,7 @@ def correspondence(ctx):
 
     # ---------------- primitives (inequalities: sample for sample)
     prim_jobs = []
-    for i in range(ctx.scale(60, 500)):
+    for i in range(ctx.scale(60, 2000)):
         n = int(rng.choice([31, 32, 48, 63]))
         shape = (n, n + (i % 3) - 1)
         x, y = co.make_xy_grid(shape, diameter=2)
@@ -541,7 +541,7 @@ def correspondence(ctx):
             ctx.pred_fail(kind, case, b)
 
     # ---------------- polygons (qhull) against the half-plane oracle; monotone; symmetric
-    for i in range(ctx.scale(60, 600)):
+    for i in range(ctx.scale(60, 2000)):
         n = int(rng.choice([48, 63, 64]))
         x, y = co.make_xy_grid(n, diameter=2)
         sides = int(3 + i % 10)
@@ -554,7 +554,7 @@ def correspondence(ctx):
             ctx.pred_fail('regular_polygon', case, b)
 
     # ---------------- keystone apertures
-    for i in range(ctx.scale(12, 90)):
+    for i in range(ctx.scale(12, 240)):
         cfg = key_config(rng, i)
         ctx.case('keystone', cfg, tag=f'rings{cfg["rings"]}')
         try:
